@@ -11,3 +11,5 @@ import Heathcliff.Props.C01
 #print axioms HC.C01.decrypt_fresh_bfv
 #print axioms HC.C01.multiplyAddPlain_coeff
 #print axioms HC.C01.bgv_round_trip_cf_bounded
+#print axioms HC.C01.dotProduct_size2_ntt
+#print axioms HC.C01.dotProduct_size2_coeff
